@@ -184,6 +184,19 @@ def view_cells():
                                lambda P, a, root=root, lo=lo, cnt=cnt: P.wrap(P.shr(SP._bits(P, a, root), lo), cnt, False)))
                 wr.append(Cell(f"view-accessor-write|{rk}.{call}", [("z", root), ("v", BV(cnt))], root, f"{{o}} <<= {{z}}\n{{o}}.{call}.bitvector <<= {{v}}",
                                lambda P, z, v, root=root, lo=lo, cnt=cnt: SP._from_bits(P, _set(P, SP._bits(P, z, root), lo, cnt, v, 8), root)))
+    # std.Ref[T](x): the T-typed view of x (same bits), usable wherever a T is expected
+    for rk in ("U", "S", "BV"):
+        root = Ty(rk, 6)
+        for tk, tname in (("BV", "BitVector"), ("U", "Unsigned"), ("S", "Signed")):
+            tt = Ty(tk, 6)
+            if tk == "BV":
+                rd.append(Cell(f"ref-view|{rk}->BitVector|or", [("a", root), ("b", BV(6))], BV(6), "{o} <<= std.Ref[BitVector[6]]({a}) | {b}",
+                               lambda P, a, b, root=root: P.bor(SP._bits(P, a, root), b)))
+            else:
+                rd.append(Cell(f"ref-view|{rk}->{tname}|add", [("a", root)], tt, f"{{o}} <<= std.Ref[{tname}[6]]({{a}}) + 1",
+                               lambda P, a, root=root, tt=tt: SP._from_bits(P, P.wrap(SP._bits(P, a, root) + 1, 6, False), tt)))
+            wr.append(Cell(f"ref-view-write|{rk}->{tname}", [("z", root), ("v", tt)], root, f"{{o}} <<= {{z}}\nstd.Ref[{tname}[6]]({{o}})[4:1] <<= {{v}}[3:0]",
+                           lambda P, z, v, root=root, tt=tt: SP._from_bits(P, _set(P, SP._bits(P, z, root), 1, 4, P.wrap(SP._bits(P, v, tt), 4, False), 6), root)))
     # elements of an array signal are views too: slices, typed views and iteration over mem[i] keep the array index
     for rk, tname in (("BV", "BitVector"), ("U", "Unsigned")):
         et = Ty(rk, 4)
